@@ -360,7 +360,7 @@ def run_serial(ctx):
 
 
 def run(ctx):
-    drive(ctx, params(ctx.tier), check_pair, ctx.budget(quick=150, thorough=500), label="pair")
+    drive(ctx, params(ctx.tier), check_pair, ctx.budget(quick=300, thorough=500), label="pair")
 
 
 PARALLEL = True
